@@ -86,6 +86,7 @@ REQUIRED_COUNTERS = ["trees_judged", "loaded_modules_checked_against_find_spec",
                      "walker_modules_in_later_legacy_portion_checked", "by_file_path_requests", "by_file_path_trees_compared",
                      "by_file_path_toplevel_module_file", "by_file_path_submodule_file", "by_file_path_stub_only_file",
                      "by_file_path_in_namespace_package", "by_file_path_outside_search_paths", "by_file_path_missing_checked",
+                     "by_file_path_file_next_to_same_named_link",
                      "loaded_modules_with_unusual_name_checked", "walker_unusual_names_checked",
                      "walker_unusual_package_names_checked", "walker_modules_below_unusual_package_checked",
                      "link_trees_judged", "walker_modules_through_directory_link_checked", "walker_modules_from_file_link_checked",
@@ -97,7 +98,7 @@ ASSUMPTIONS = ["symbolic links: CPython follows them everywhere and goes by the 
                "path); Griffe's file paths are compared as spelled, links not resolved (the tree's root is a real path). A name the "
                "walker lists only because a dangling / looping link is named like a module is not a module (CPython cannot import "
                "it). A self-cycle (d/loop -> .) repeats a small directory until the kernel's limit of 40 links per path; both sides "
-               "stop there. Requests BY PATH that lead through a link (or name x.py next to a link x) are not judged: which dotted "
+               "stop there. Requests BY PATH that lead through a link are not judged (x.py next to a link named x is: no link on its way): which dotted "
                "name such a path has is not said by the statement (the finder names it after the link's target)",
                "legacy namespace packages: the reference child has no pkg_resources, so every generated declaration reaches "
                "pkgutil.extend_path (directly or in the except-ImportError branch); bare pkg_resources declarations and "
@@ -405,7 +406,7 @@ def gen_case(rng: random.Random, perms: int) -> dict:
 LINK_KINDS = [("dir-to-shared-package", 4), ("dir-to-shared-namespace", 2), ("dir-to-other-portion", 3), ("dir-top-level-portion", 3),
               ("dir-chain", 2), ("dir-in-stubs-package", 3), ("dir-absolute-target", 1), ("file-module", 3),
               ("file-init-to-other-name", 4), ("file-module-to-init", 3), ("file-stub", 2), ("file-chain", 1),
-              ("dangling-file", 1), ("dangling-dir", 1)]
+              ("dangling-file", 1), ("dangling-dir", 1), ("dir-named-like-sibling-module", 3)]
 # (a self-cycle is added to 2% of the link trees only: both sides walk it 40 levels deep, the kernel's limit of links per path)
 
 
@@ -485,6 +486,22 @@ def add_links(rng: random.Random, search: list, files: dict, dirs: list, links: 
                     target = rel(link, mid)
                 elif kind == "dir-absolute-target":
                     target = "{ROOT}/" + real
+        elif kind == "dir-named-like-sibling-module":
+            # x -> <directory elsewhere> next to an existing x.py / x.pyi: the directory link is shadowed or shadows, as its
+            # content dictates; the FILE keeps its own name whatever the link leads to
+            mods = [k for k in files if k.endswith((".py", ".pyi")) and os.path.basename(k).count(".") == 1
+                    and not os.path.basename(k).startswith("__init__") and os.path.dirname(k) in hosts]
+            rng.shuffle(mods)
+            for m in mods[:4]:
+                cand = m.rsplit(".", 1)[0]
+                if free(cand):
+                    real = fresh("d")
+                    if rng.random() < 0.4:
+                        files[f"{real}/notes.txt"] = "data\n"         # a data directory: nothing to import there
+                    else:
+                        fill(real, init=rng.random() < 0.4)
+                    link, target = cand, rel(cand, real)
+                    break
         elif kind == "dir-to-other-portion":
             targets = [d for d in hosts if d.count("/") >= 2]
             if targets:
@@ -1170,7 +1187,13 @@ def judge_against_cpython(case: dict, root: str, ref: dict, obs: dict, rec) -> l
         comps = name.split(".")[1:]
         desc = specs.get(name) or {}
         kind = ref_kind(desc)
+        ispkg_from_dangling_link = False
         if case.get("links"):
+            if kind in ("package", "module", "compiled") and not ispkg and _dangling_provider(name, specs):
+                # the walker met a dangling link named like this module first and lists the name once, as a non-package; what
+                # CPython imports is another entry (a later portion's package, say): only ispkg is the link's, not judged
+                ispkg_from_dangling_link = True
+                rec.count("walker_ispkg_taken_from_dangling_link_not_judged")
             if kind in ("absent", "namespace") and not ispkg and _dangling_provider(name, specs):
                 # the walker lists names from the directory listing without looking at the files: a dangling (or looping)
                 # link named like a module is listed, but CPython cannot import it - not a module (a same-named directory
@@ -1212,7 +1235,7 @@ def judge_against_cpython(case: dict, root: str, ref: dict, obs: dict, rec) -> l
         if name not in mods:
             problems.append(Problem("walker-module-missing", name, f"{name}: found by pkgutil.walk_packages but not loaded",
                                     sorted(mods), desc))
-        elif ispkg != mods[name]["flags"][0] and not any(p.name == name for p in problems):
+        elif ispkg != mods[name]["flags"][0] and not ispkg_from_dangling_link and not any(p.name == name for p in problems):
             problems.append(Problem("classification", name, f"{name}: walker says ispkg={ispkg}", mods[name], desc))
     if ref["walk_errors"]:
         rec.count("walker_import_errors", len(ref["walk_errors"]))
@@ -1223,7 +1246,7 @@ def judge_against_cpython(case: dict, root: str, ref: dict, obs: dict, rec) -> l
 # mechanism classifiers (predicates over tree structure + observation; see known_findings.d/C14.json)
 INLINE_DECLARATION = re.compile(r"__path__ = __import__\([\"']pkgutil[\"']\)\.extend_path\(__path__, __name__\)|"
                                 r"__import__\([\"']pkg_resources[\"']\)\.declare_namespace\(__name__\)")
-FINDINGS = ["C14-by-path-object-path-is-bare-name", "C14-by-path-file-in-non-package-directory-named-after-it",
+FINDINGS = ["C14-by-path-module-named-after-sibling-link", "C14-by-path-object-path-is-bare-name", "C14-by-path-file-in-non-package-directory-named-after-it",
             "C14-legacy-namespace-loses-to-later-package", "C14-legacy-namespace-portion-order",
             "C14-extend-path-declaration-not-recognised", "C14-nested-legacy-namespace-not-merged",
             "C14-mentioned-declaration-taken-as-namespace",
@@ -1562,8 +1585,9 @@ def file_request_candidates(case: dict, ref: dict, obs: dict, problems: list[Pro
         if linked and os.path.realpath(path) != _rp(path):
             return          # a path that leads through a link: which dotted name it has is not judged (see ASSUMPTIONS)
         if linked and os.path.isfile(path) and os.path.islink(os.path.join(os.path.dirname(path), os.path.basename(path).split(".", 1)[0])):
-            return          # x.py next to a LINK named x: reported to the lead (the finder resolves 'x' and names the module after
-            #                 the link's target), kept out of the domain until it is recorded or repaired
+            # x.py / x.pyi next to a LINK named x: the suffix-less name of the file is no path of its own, the link must not be
+            # followed when the module is named (C14-by-path-module-named-after-sibling-link) - a class of its own
+            cat = "file-next-to-same-named-link"
         out.append({"cat": cat, "name": name, "path": path, "in_namespace": top_is_namespace})
 
     for name in sorted(mods):
@@ -1606,8 +1630,9 @@ def pick_file_requests(case: dict, candidates: list[dict], limit: int = MAX_FILE
         by_cat.setdefault(c["cat"], []).append(c)
     cats = sorted(by_cat)
     rng.shuffle(cats)
+    always = [c for c in cats if c == "file-next-to-same-named-link"]          # rare: never crowded out by the limit
     picked = []
-    for cat in cats[:limit]:
+    for cat in always + [c for c in cats if c not in always][:limit]:
         c = dict(rng.choice(by_cat[cat]))
         c["style"] = rng.choice(REQUEST_STYLES)
         picked.append(c)
@@ -1653,6 +1678,14 @@ def classify_file_request(req: dict, bp: dict) -> str | None:
     name, path = req["name"], _rp(req["path"])
     last = name.rsplit(".", 1)[-1]
     loaded = {(n, _rp(f)) for n, f, o in bp.get("attempts", []) if o == "loaded"}
+    # C14-by-path-module-named-after-sibling-link: the file x.py sits next to a symbolic link x, and the object that came back
+    # (or the name that was not found) ends with the name of the link's TARGET instead of x
+    sibling = os.path.join(os.path.dirname(path), os.path.basename(path).split(".", 1)[0])
+    if os.path.isfile(path) and os.path.islink(sibling):
+        target_name = os.path.basename(os.path.realpath(sibling))
+        got = bp.get("top") if bp["outcome"] == "ok" else bp["outcome"].split("'")[1] if bp["outcome"].startswith("KeyError: '") else None
+        if target_name != last and got is not None and got.rsplit(".", 1)[-1] == target_name:
+            return "C14-by-path-module-named-after-sibling-link"
     if bp["outcome"] != f"KeyError: '{last}'":
         return None
     is_dir = os.path.isdir(path)
